@@ -93,7 +93,8 @@ for cls in (PurePath, PurePosixPath, PureWindowsPath, Path, PosixPath, WindowsPa
 def _compile(pattern: str) -> re.Pattern:
     try:
         return re.compile(pattern)
-    except re.error as err:
+    except (re.error, OverflowError, RecursionError) as err:
+        # huge repetition counts / nesting are errors of the pattern too
         raise ValidationError(str(err))
 
 
